@@ -81,7 +81,7 @@ static int decode_filename(const char *filename, size_t line_no, char *buffer)
 		}
 
 		if (*src != '\0')
-			return -1;
+			goto fail_trailing;
 
 		*dst = '\0';
 	}
@@ -100,6 +100,10 @@ fail_escape:
 fail_match:
 	fprintf(stderr, "%s: " PRI_SZ ": Unmatched '\"' in filename.\n",
 		filename, line_no);
+	return -1;
+fail_trailing:
+	fprintf(stderr, "%s: " PRI_SZ ": Unexpected text after the closing "
+		"'\"' of the filename.\n", filename, line_no);
 	return -1;
 }
 
